@@ -1563,6 +1563,10 @@ class Executor:
             elif isinstance(v.kind, KOpt) and isinstance(v.kind.elem, KTuple):
                 self.check(st, "TypeError-unpack-None", not_(v.terms[0]), node)
                 items = tuple_items(opt_get(v))
+            elif isinstance(v.kind, KList):
+                # a list of symbolic length unpacked into k targets: ValueError unless it has exactly k elements
+                self.check(st, "ValueError-unpack-length", v.terms[0] == len(target.elts), node)
+                items = [list_get(v, z3.IntVal(i)) for i in range(len(target.elts))]
             else:
                 self.unsupported(node, "unpacking %r" % (v.kind,))
             if len(items) != len(target.elts):
